@@ -182,7 +182,7 @@ size_t bn_size_str_v(const bn_t a, uint_t radix)
 __CPROVER_requires(VC_BN_FRESH(a) && VC_BN_NF(a) && C7S_VALBOUND(a))
 __CPROVER_requires(C7S_RADIX_OK(radix) || g_may_throw)
 VC_ASSIGNS(!C7S_RADIX_OK(radix): g_ctx.last; g_ctx.code, g_ctx.caught, g_ctx.error, g_ctx.number, g_thrown, g_c7s_div_calls)
-__CPROVER_ensures(!C7S_RADIX_OK(radix) ==> (__CPROVER_old(g_ctx.last) == NULL && g_ctx.code == RLC_ERR && g_ctx.last == &g_ctx.error && g_ctx.error.block == 0 && \
+__CPROVER_ensures(!C7S_RADIX_OK(radix) ==> (__CPROVER_old(g_ctx.last) == NULL && g_ctx.code == RLC_ERR && __CPROVER_pointer_equals(g_ctx.last, &g_ctx.error) && g_ctx.error.block == 0 && \
 	g_ctx.number == ERR_NO_VALID && __CPROVER_return_value == 0 && g_c7s_div_calls == __CPROVER_old(g_c7s_div_calls)))
 __CPROVER_ensures(C7S_RADIX_OK(radix) ==> (g_ctx.code == __CPROVER_old(g_ctx.code) && __CPROVER_return_value == C7S_NEED(a, radix)))
 ;
